@@ -17,8 +17,11 @@
 (*   push  {% set _ = L.append(1) %}        (changes the list, no output)  *)
 (*   bad   {{ bad }}                        (yields the object)            *)
 (*   div   {{ 1 // z }} with z = 0          (the template raises)          *)
-(*   call  {{ self.b() }}                   (yields concat(block b))       *)
-(* over every statement sequence up to MaxOps, block b being one of Bodies.*)
+(*   call  {{ self.b() }} or {{ m() }}      (yields concat(body))          *)
+(* over every statement sequence up to MaxOps, the called body being one   *)
+(* of Bodies, written as block b (via = "block": its function is a         *)
+(* generator that BlockReference hands to concat) or as macro m (via =     *)
+(* "macro": the body writes into a buffer, a list, in both modes).         *)
 (*                                                                         *)
 (* OPERATIONAL LAYER, one action per step of the implementation:           *)
 (*   Pull     the consumer resumes the render generator, which runs to its *)
@@ -78,6 +81,7 @@ AsChunk(r) == IF r.kind = "text" THEN Chunk("txt", r.toks)
 
 (* ---- functional definition (used for `self.b()`, and as the twin of the actions) ----------- *)
 \* a: [n, cs, conv, nconv, err]; lazy: convert as pulled once two values are there
+NoBody == [ops |-> <<>>, via |-> "block"]      \* bodies call nothing
 RECURSIVE Fold(_, _, _, _, _), Concat(_, _, _, _)
 ConvUpTo(a, upto) ==   \* convert values a.nconv+1 .. upto with the list as it is now; stops at the first failure
     LET RECURSIVE Go(_)
@@ -104,12 +108,12 @@ Fold(ops, i, a, body, lazy) ==
               [] op = "txt"  -> Fold(ops, i + 1, yielded(Chunk("txt", <<"x">>), a.n), body, lazy)
               [] op = "ref"  -> Fold(ops, i + 1, yielded(Chunk("ref", <<>>), a.n), body, lazy)
               [] op = "bad"  -> Fold(ops, i + 1, yielded(Chunk("bad", <<>>), a.n), body, lazy)
-              [] op = "call" -> LET r == Concat(body, a.n, <<>>, lazy)     \* block bodies call no block
+              [] op = "call" -> LET r == Concat(body.ops, a.n, NoBody, lazy /\ body.via = "block")   \* a macro buffers
                                 IN IF r.res.kind = "err" THEN [a EXCEPT !.err = r.res.cls, !.n = r.n]
                                    ELSE Fold(ops, i + 1, yielded(AsChunk(r.res), r.n), body, lazy)
 
 (* ---- operational layer ------------------------------------------------------------------------ *)
-VARIABLES prog,    \* [main, body]: the input
+VARIABLES prog,    \* [main, body, via]: the input
           cur,     \* index into Renderers: who is running (sync first, then async; 3 = both done)
           pc,      \* next statement of the render generator
           n,       \* length of L (every renderer gets fresh data)
@@ -121,11 +125,13 @@ VARIABLES prog,    \* [main, body]: the input
 
 vars == <<prog, cur, pc, n, cs, conv, nconv, ended, res>>
 
-Programs == { [main |-> m, body |-> b] : m \in UNION {[1..k -> Ops] : k \in 0..MaxOps}, b \in 1..Len(Bodies) }
+Programs == { [main |-> m, body |-> b, via |-> v] :
+                 m \in UNION {[1..k -> Ops] : k \in 0..MaxOps}, b \in 1..Len(Bodies), v \in {"block", "macro"} }
+Body(p) == [ops |-> Bodies[p.body], via |-> p.via]
 UsesBody(p) == \E i \in 1..Len(p.main) : p.main[i] = "call"
 
 Init ==
-    /\ prog \in {p \in Programs : UsesBody(p) \/ p.body = 1}
+    /\ prog \in {p \in Programs : UsesBody(p) \/ (p.body = 1 /\ p.via = "block")}
     /\ cur = 1 /\ pc = 1 /\ n = 0 /\ cs = <<>> /\ conv = <<>> /\ nconv = 0 /\ ended = FALSE
     /\ res = [r \in {"sync", "async"} |-> Pending]
 
@@ -146,7 +152,7 @@ NextYield(i, m) ==
               [] op = "txt"  -> Y(Chunk("txt", <<"x">>), m)
               [] op = "ref"  -> Y(Chunk("ref", <<>>), m)
               [] op = "bad"  -> Y(Chunk("bad", <<>>), m)
-              [] op = "call" -> LET r == Concat(Bodies[prog.body], m, <<>>, IsLazy)
+              [] op = "call" -> LET r == Concat(Bodies[prog.body], m, NoBody, IsLazy /\ prog.via = "block")
                                 IN IF r.res.kind = "err"
                                    THEN [what |-> "raise", pc |-> i, n |-> r.n, c |-> Chunk("nil", <<>>), cls |-> r.res.cls]
                                    ELSE Y(AsChunk(r.res), r.n)
@@ -182,7 +188,7 @@ Finish ==
 Report ==
     /\ cur = 3
     /\ cur' = 4
-    /\ PrintT(ToJson([order |-> [main |-> prog.main, body |-> Bodies[prog.body], sync |-> res["sync"], async |-> res["async"]]]))
+    /\ PrintT(ToJson([order |-> [main |-> prog.main, body |-> Bodies[prog.body], via |-> prog.via, sync |-> res["sync"], async |-> res["async"]]]))
     /\ UNCHANGED <<prog, pc, n, cs, conv, nconv, ended, res>>
 
 Next == Pull \/ Convert \/ Finish \/ Report
@@ -209,6 +215,6 @@ C09_ConvertedAtTheEnd ==
 
 \* the actions and the functional definition agree (the latter is what `self.b()` uses)
 C09_ActionsMatchFunction ==
-    cur >= 3 => /\ res["sync"]  = Concat(prog.main, 0, Bodies[prog.body], Lazy).res
-                /\ res["async"] = Concat(prog.main, 0, Bodies[prog.body], FALSE).res
+    cur >= 3 => /\ res["sync"]  = Concat(prog.main, 0, Body(prog), Lazy).res
+                /\ res["async"] = Concat(prog.main, 0, Body(prog), FALSE).res
 =============================================================================
